@@ -218,6 +218,10 @@ theorem tag_roundtrip3 (a b c : Nat) (hnd : [a, b, c].Nodup) (order order' env e
     generalize relOdd [x', y', z'] env' = C
     cases s <;> cases A <;> cases B <;> cases C <;> rfl
 
+example : translateTetra [7, 3, 9] [3, 9, 7] (fun _ => false) (some true) none = .ok true ∧
+    translateTetra [9, 7, 3] [9, 3, 7] (fun _ => false) none (some (Rdkit.retag true (relOdd [3, 9, 7] [9, 3, 7]))) =
+      .ok (true ^^ relOdd [7, 3, 9] [9, 7, 3]) := by decide
+
 /-- three heavy neighbours and an explicit hydrogen atom `h` standing anywhere in RDKit's neighbour lists -/
 theorem tag_roundtrip_explicitH (a b c h : Nat) (hnd : [a, b, c].Nodup) (isH : Nat → Bool)
     (hheavy : ∀ v ∈ [a, b, c], isH v = false) (hh : isH h = true) (order order' env env' : List Nat)
@@ -444,6 +448,9 @@ theorem dative_direction (m : Mol) (metal donor : Nat) (hm : inorganicZ.contains
   constructor
   · simp only [orient, hm]; rfl
   · simp only [orient, hd]; rfl
+
+example : inorganicZ.contains 29 = false ∧ inorganicZ.contains 7 = true ∧
+    orient ⟨[(1, { z := 29 }), (2, { z := 7 })], []⟩ 1 2 = (2, 1) := by decide
 
 /-- the rule only ever exchanges the two ends: the undirected bond is unchanged -/
 theorem orient_same_bond (m : Mol) (n k : Nat) : orient m n k = (n, k) ∨ orient m n k = (k, n) := by
